@@ -558,10 +558,19 @@ pub fn run(ctx: &Ctx, rep: &mut Report) {
         }
         enumerate(ctx, rep, &format!("exhaustive-len{}", len), sequences(&alpha, len), |c| run_case(ctx, c));
     }
+    if rep.failures.is_empty() {
+        // a snapshot that runs while clients write (C02's concurrent engine under the baton scheduler: a stored tombstone
+        // and rewritten keys meet the snapshot task), then a snapshot that completes alone, then a restart
+        let n = ctx.amount(6000, 150_000);
+        explore(ctx, rep, "snapshot-among-writers-then-restart", n, crate::props::c02::ccase_strategy_for_c06(), |c| crate::props::c02::conc_guard_for_c06(ctx, c));
+    }
 }
 
-pub fn replay(ctx: &Ctx, _engine: &str, case: &J) -> Result<Option<(String, String)>, String> {
+pub fn replay(ctx: &Ctx, engine: &str, case: &J) -> Result<Option<(String, String)>, String> {
     crate::interpose::virtual_clock(true);
+    if engine == "snapshot-among-writers-then-restart" {
+        return replay_guarded::<crate::props::c02::CCase>(ctx, case, |c| crate::props::c02::conc_guard_for_c06(ctx, c));
+    }
     replay_guarded::<Case>(ctx, case, |c| run_case(ctx, c))
 }
 
